@@ -11,7 +11,7 @@ import os
 
 from . import cache, fold, peval, reference as ref
 from .fold import TOP, mk_enum, to_py
-from .rules_tables import anchor_fn, where_fn, VERSION, ECL, MASK, MTYPE
+from .rules_tables import anchor_fn, where_fn, division_routine, VERSION, ECL, MASK, MTYPE
 
 QUICK_PLACE_VERSIONS = list(range(1, 11)) + [14, 21, 27, 40]  # all alignment-grid shapes up to 4x4, version info, both count classes; the largest symbol (every index width)
 QUICK_TERM_VERSIONS = [1, 2, 3, 4, 5, 6, 39, 40]  # smallest sizes plus the two largest (the synthetic border rows are 177 long)
@@ -717,12 +717,19 @@ def c01_r5(ctx, f, rid="C01.R5"):
 # ---------------------------------------------------------------------------------------------------------------------
 
 def _div_summary(pe, st, args, t):
-    """polynomials::division(block, generator) -> [u8; 255]: opaque here (decided by C07.R1/R2: the remainder occupies the
-    last len(g)-1 cells).  Cell i of the result is the symbol rembuf(block lo, block hi, i)."""
+    """the block division (block, generator) -> [u8; N], or (block, generator, &mut [u8; N]): opaque here (decided by C07.R3/R4: the
+    remainder occupies the last len(g)-1 cells).  Cell i of the result is the symbol rembuf(block lo, block hi, i)."""
     a = peval._deref(pe, st, args[0])
     if a == TOP or a[0] != "symslice":
         raise fold._Abort("top", "division called on something other than a slice of the data codewords")
-    return ("array", tuple(("rembuf", a[1], a[2], i) for i in range(255)))
+    n = _G.get("div_n", 255)
+    buf = ("array", tuple(("rembuf", a[1], a[2], i) for i in range(n)))
+    if len(args) == 3:
+        if args[2] == TOP or args[2][0] != "ref":
+            raise fold._Abort("top", "division called with an unknown output buffer")
+        pe.store_ptr(st, args[2][1], buf)
+        return peval.UNIT
+    return buf
 
 
 def _structure_job(v):
@@ -730,7 +737,7 @@ def _structure_job(v):
     out = {"v": v, "cells": {}}
     for l in ref.LEVELS:
         pe = peval.PEval(f)
-        pe.summaries["polynomials::division"] = _div_summary
+        pe.summaries[_G.get("div_path", "polynomials::division")] = _div_summary
         n = ref.data_codewords(v, l)
         r = pe.call("polynomials::structure", [("ref", ("const", ("symvec", n))), mk_enum(ECL, l), mk_enum(VERSION, "V%02d" % v)])
         if r.kind != "ret":
@@ -754,12 +761,13 @@ def c02_r4(ctx, f, rid="C02.R4"):
     fn = anchor_fn(ctx, rid, f, "polynomials::structure", ["&[u8]", ECL, VERSION], None) or f.fn("polynomials::structure")
     if not fn:
         return
-    if f.fn("polynomials::division") is None:
-        ctx.anchor_missing(rid, "polynomials::division")
+    dv = division_routine(ctx, rid, f)
+    if dv is None:
         return
     _G["facts"] = f
+    _G["div_path"], _G["div_n"] = dv[0].path, dv[2]
     versions = list(range(1, 41))
-    res = cache.pmap(f, "structure", _structure_job, sorted(versions, reverse=True))
+    res = cache.pmap(f, "structure", _structure_job, sorted(versions, reverse=True), params=(dv[0].path, dv[1], dv[2]))
     groups = _Groups()
     und = _Und()
     runs = 0
